@@ -18,7 +18,7 @@ func init() {
 			"(CloseAll + StartReplicationQueues), run against the scripted remote under one seeded interleaving, followed by 20 simulated minutes (+ the longest pending wait) on a healthy remote, " +
 			"plus up to 3 process-crash images of the queue directory, each restarted with the real manager; non-trivial = at least one acknowledged batch and one request at the remote; " +
 			"distinct = distinct hash of (operations, remote answers, attempt outcomes, crash cuts, context-switch sequence)",
-		Probes: []string{"delay_checked", "backoff_capped", "retry_cut_short_by_enqueue", "repost_of_accepted", "duplicate_delivery", "dropped_on_400", "skipped_by_max_age",
+		Probes: []string{"delay_checked", "backoff_capped", "repost_of_accepted", "duplicate_delivery", "dropped_on_400", "skipped_by_max_age",
 			"clean_restart", "redelivery_after_crash", "delivered_after_faults", "late_retry_excused_by_max_age"},
 		Real: []string{"replications/internal.durableQueueManager: NewDurableQueueManager, InitializeQueue, StartReplicationQueues, EnqueueData, CloseAll, replicationQueue.run / SendWrite (instrumented from the working tree; reached through an overlay re-export, nothing committed)",
 			"replications/remotewrite: NewWriter, writer.Write (back-off, Retry-After, drop-on-400), PostWrite (instrumented)",
